@@ -160,7 +160,7 @@ def run_single(ctx, impl, cases, point):
                      {"largest": largest, "pn_len": n, "truncated": t, "srv": srv, "type": ty},
                      expected=max(largest, want), actual=res)
         p["cases"] += 1
-    replies = ctx.driver(lines)
+    replies = ctx.driver("pn", lines)
     for i, (case, r_impl) in enumerate(zip(cases, exp_impl)):
         r_model = replies[3 * i + 2]
         if r_model != r_impl:
@@ -193,7 +193,7 @@ def run_histories(ctx, impl, hs, point):
             largest[key] = max(largest.get(key, 0), want)
             lines.append(f"pn {srv} {ty} {n} {t}")
             rimpl.append(res)
-        replies = ctx.driver(lines)
+        replies = ctx.driver("pn", lines)
         p["cases"] += 1
         ctx.count(tuple(h), nontrivial=len({(s, SPACE[t]) for s, t, _, _ in h}) >= 2)
         ctx.hist("history_len", len(h) // 10 * 10)
